@@ -18,7 +18,7 @@ INFO = {
 }
 
 
-def h_dt(f, k, m, pastify=False, defs=None, style='sub', jitter=False):
+def h_dt(f, k, m, pastify=False, defs=None, style='sub', jitter=False, rounds=1):
     f = T(f)
     defs_list = [(n, T(d)) for n, d in (defs or [])]
     full = inline(f, dict(defs_list))
@@ -41,6 +41,11 @@ def h_dt(f, k, m, pastify=False, defs=None, style='sub', jitter=False):
             tpre, tpost = list(range(k)), list(range(m))
         dt.online(a, pre, k, tpre)
         a.reset()
+        for rnd in range(1, rounds):
+            # several reset() calls on the same object, each after more (symbolic) updates
+            more = dt.trace(env, vs, max(k, 1), prefix='r%d_' % rnd)
+            dt.online(a, more, max(k, 1))
+            a.reset()
         res = [('counter-zero', A.bool(a.sampling_violation_counter == 0))]
         ga = dt.online(a, post, m, tpost)
         gb = dt.online(b, post, m, tpost)
@@ -51,7 +56,7 @@ def h_dt(f, k, m, pastify=False, defs=None, style='sub', jitter=False):
     return body
 
 
-def h_ct(f, k, m, n, defs=None):
+def h_ct(f, k, m, n, defs=None, rounds=1):
     f = T(f)
     defs_list = [(nm, T(d)) for nm, d in (defs or [])]
     full = inline(f, dict(defs_list))
@@ -71,6 +76,10 @@ def h_ct(f, k, m, n, defs=None):
         for j in range(k):
             a.update(*[[v, [list(p) for p in pre[v][j * n:(j + 1) * n]]] for v in vs])
         a.reset()
+        for rnd in range(1, rounds):
+            more = {v: ct.signal(env, 'r%d_%s' % (rnd, v), n, 'zero') for v in vs}
+            a.update(*[[v, [list(p) for p in more[v]]] for v in vs])
+            a.reset()
         oa, ob_ = [], []
         for j in range(m):
             oa += a.update(*[[v, [list(p) for p in post[v][j * n:(j + 1) * n]]] for v in vs])
@@ -98,6 +107,10 @@ def obligations(tier, rng):
     for f in f1:
         for k in ks:
             out.append(ob('C10', 'dt', 'dt/F1/%s/k=%d' % (text(f), k), f=f, k=k, m=m))
+    for f in f1:
+        for rounds in ((2,) if quick else (2, 3)):
+            out.append(ob('C10', 'dt', 'dt/F1/%s/k=2/resets=%d' % (text(f), rounds), f=f, k=2, m=m, rounds=rounds))
+            out.append(ob('C10', 'dt', 'dt/F1/%s/k=0/resets=%d' % (text(f), rounds), f=f, k=0, m=m, rounds=rounds))
     for f in fdup()[::3 if quick else 1]:
         out.append(ob('C10', 'dt', 'dt/Fdup/%s/k=2' % text(f), f=f, k=2, m=m))
     for f in [('once_t', X, 0, 2), ('since', X, Y), ('prev', X)]:
@@ -112,6 +125,14 @@ def obligations(tier, rng):
               ('implies', ('geq', X, Y), ('eventually_t', ('geq', Y, ('const', 0.0)), 0, 2)), ('eventually_t', ('once_t', Y, 0, 1), 0, 1)]:
         for k in ([0, 3] if quick else [0, 1, 3, 5]):
             out.append(ob('C10', 'dt', 'dt/pastified/%s/k=%d' % (text(f), k), f=f, k=k, m=m + 1, pastify=True))
+    Pn = ('var', 'p')
+    for d in [('eventually_t', X, 0, 1), ('next', X), ('until_t', X, Y, 0, 1), ('once_t', X, 0, 1)]:
+        for mn in [('and', Pn, Z), ('or', Pn, ('eventually_t', Z, 0, 2))]:
+            for k in (0, 2):
+                out.append(ob('C10', 'dt', 'dt/pastified-subspec/p=%s/out=%s/k=%d' % (text(d), text(mn), k), f=mn, defs=[['p', d]], k=k, m=m + 1,
+                              pastify=True))
+    out.append(ob('C10', 'dt', 'dt/pastified/%s/k=2/resets=2' % text(('eventually_t', X, 0, 2)), f=('eventually_t', X, 0, 2), k=2, m=m + 1, pastify=True, rounds=2))
+    out.append(ob('C10', 'dt', 'dt/subspec/p=prev(x)/out=(p) and (z)/k=2/resets=2', f=('and', Pn, Z), defs=[['p', ('prev', X)]], k=2, m=m, rounds=2))
     if not quick:
         f2 = refsem.depth2(PAST_OPS, PAST_OPS, [(0, 1), (1, 2)])
         for f in rng.sample(f2, 300):
@@ -125,6 +146,9 @@ def obligations(tier, rng):
         for k in ([0, 1] if quick else [0, 1, 2]):
             out.append(ob('C10', 'ct', 'ct/%s/k=%d' % (text(f), k), f=f, k=k, m=1 if (two and quick) else 2, n=dn if not two else 2,
                           max_paths=30000, wall=900))
+    for f in [('once', X), ('once_t', X, 0, 1), ('since', X, Y)]:
+        two = len(variables(f)) > 1
+        out.append(ob('C10', 'ct', 'ct/%s/k=1/resets=2' % text(f), f=f, k=1, m=1, n=2, rounds=2, max_paths=30000, wall=900))
     out.append(ob('C10', 'ct', 'ct/subspec/p=once(x)/out=not(p)/k=1', f=('not', P), defs=[['p', ('once', X)]], k=1, m=2, n=2))
     seen = set()
     return [o for o in out if not (o['oid'] in seen or seen.add(o['oid']))]
